@@ -7,22 +7,22 @@ HERE = os.path.dirname(os.path.dirname(os.path.abspath(__file__)))
 
 CHECKS = {
     "C01": dict(
-        text="Runner-level Lean model (Model/Proto = unittest 3.12.1 protocol, Model/Result = TestResult, Model/Runner = layer loop, resume, children) tied to the code by running the real runner (CLI, real children) on generated test worlds whose hooks and tests write a pid-tagged trace; every process is compared event by event with the model on this property's projection, and the property's clauses are monitored on the real traces/output. Projection/monitor: layer setUp/tearDown/test events: stack exactness, setUp/tearDown guards, all torn down, frozen after NotImplementedError.",
-        note='hooks that re-enter the runner, MemoryError/KeyboardInterrupt/EndRun and -D are not modelled; Lean theorems for the invariant are being added (see evidence.obligations)',
+        text="Runner-level Lean model (Model/Proto = unittest 3.12.1 protocol, Model/Result = TestResult, Model/Runner = layer loop, resume, children) tied to the code by running the real runner (CLI, real children) on generated test worlds whose hooks and tests write a pid-tagged trace; every process is compared event by event with the model on this property's projection, and the property's clauses are monitored on the real traces/output. Theorems (every world, option vector and fault script of the model; induction over the run with a ghost log that snapshots setup_layers at every event): the set-up stack is exactly the closure of what was set up and not torn down (C01_exact_stack), a layer is set up only when absent and after all its bases (C01_setUp_guard, C10_bases_first), torn down only when present and before its bases (C01_tearDown_order), everything is torn down at the end unless frozen (C01_all_torn_down, C01_balance), nothing is set up in the parent after NotImplementedError and the rest runs in children (C01_frozen, C01_rest_in_children). Real setup_layers is read from the runner's stack frames at every event and compared with the model's snapshots.",
+        note='hooks that re-enter the runner, MemoryError/KeyboardInterrupt/EndRun and -D are not modelled',
         technique="Lean 4 theorems on the runner-level model (unittest protocol, TestResult, layer loop) + differential correspondence on generated test worlds + trace monitors",
         design="§5 C01"),
     "C02": dict(
-        text="Runner-level Lean model (Model/Proto = unittest 3.12.1 protocol, Model/Result = TestResult, Model/Runner = layer loop, resume, children) tied to the code by running the real runner (CLI, real children) on generated test worlds whose hooks and tests write a pid-tagged trace; every process is compared event by event with the model on this property's projection, and the property's clauses are monitored on the real traces/output. Projection/monitor: exit status iff something went wrong (trace truth), incl. children that die by os._exit/SIGKILL/SIGSEGV in any phase, non-spoofing fd-2 noise.",
+        text="Runner-level Lean model (Model/Proto = unittest 3.12.1 protocol, Model/Result = TestResult, Model/Runner = layer loop, resume, children) tied to the code by running the real runner (CLI, real children) on generated test worlds whose hooks and tests write a pid-tagged trace; every process is compared event by event with the model on this property's projection, and the property's clauses are monitored on the real traces/output. Theorems: the verdict of a whole run (parent and children through the byte-level channel of C07) is 'failed' iff the trace contains a failure, an error, a failed layer set-up/tear-down, an import error or a child that did not report (C02_run_verdict, C02_verdict_iff_trace, child_bad_iff_trace); NotImplementedError in tearDown is not an error (C02_notImplemented_is_not_an_error). Monitor: exit status iff something went wrong (trace truth), incl. children that die by os._exit/SIGKILL/SIGSEGV in any phase, noisy children, non-spoofing fd-2 noise.",
         note='OS process death and pipe EOF are sampled, not proved; header-spoofing fd-2 noise is KNOWN-FINDING D10 (C07)',
         technique="Lean 4 theorems on the runner-level model (unittest protocol, TestResult, layer loop) + differential correspondence on generated test worlds + trace monitors",
         design="§5 C02"),
     "C03": dict(
-        text="Runner-level Lean model (Model/Proto = unittest 3.12.1 protocol, Model/Result = TestResult, Model/Runner = layer loop, resume, children) tied to the code by running the real runner (CLI, real children) on generated test worlds whose hooks and tests write a pid-tagged trace; every process is compared event by event with the model on this property's projection, and the property's clauses are monitored on the real traces/output. Projection/monitor: selected tests executed exactly --repeat times in one process, --list-tests lists the same set in the same order without running code, all modes agree.",
+        text="Runner-level Lean model (Model/Proto = unittest 3.12.1 protocol, Model/Result = TestResult, Model/Runner = layer loop, resume, children) tied to the code by running the real runner (CLI, real children) on generated test worlds whose hooks and tests write a pid-tagged trace; every process is compared event by event with the model on this property's projection, and the property's clauses are monitored on the real traces/output. Theorems: every selected test of a layer is started exactly once per iteration in the process that runs the layer (C03_tests_started, C03_all_started, C03_iterations_execute), each layer runs in one process (C03_layers_once, C03_child_one_layer), a child runs only its own layer's tests and the parent none of theirs (C03_parent_tests_not_in_children, C03_child_only_own_layer). Monitor: selected tests executed exactly --repeat times in one process, --list-tests lists the same set in the same order without running code, all modes (list / run / -j N / --shuffle) agree.",
         note='selection itself is C08/C09; shuffle order is taken from the real listing (C11)',
         technique="Lean 4 theorems on the runner-level model (unittest protocol, TestResult, layer loop) + differential correspondence on generated test worlds + trace monitors",
         design="§5 C03"),
     "C04": dict(
-        text="Runner-level Lean model (Model/Proto = unittest 3.12.1 protocol, Model/Result = TestResult, Model/Runner = layer loop, resume, children) tied to the code by running the real runner (CLI, real children) on generated test worlds whose hooks and tests write a pid-tagged trace; every process is compared event by event with the model on this property's projection, and the property's clauses are monitored on the real traces/output. Projection/monitor: no runner traceback, summaries printed, layers torn down, other tests still run for raising tests/layers in every phase, with/without --buffer.",
+        text="Runner-level Lean model (Model/Proto = unittest 3.12.1 protocol, Model/Result = TestResult, Model/Runner = layer loop, resume, children) tied to the code by running the real runner (CLI, real children) on generated test worlds whose hooks and tests write a pid-tagged trace; every process is compared event by event with the model on this property's projection, and the property's clauses are monitored on the real traces/output. Theorems: no modelled test or layer fault aborts the run (runTests_not_aborted, C04_no_abort), a summary is produced for every layer iteration (C04_summary_each_iteration), a failing layer hook is recorded as an error (C04_layer_failure_recorded), all layers are torn down afterwards (C04_all_torn_down). Monitor: no runner traceback, summaries printed, layers torn down, other tests still run for raising tests/layers in every phase, with/without --buffer, colour, XML reports, exceptions with cause/context/unhashable/SyntaxError, undecodable output bytes.",
         note='exception classes outside Exception in layer hooks are outside the quantifier',
         technique="Lean 4 theorems on the runner-level model (unittest protocol, TestResult, layer loop) + differential correspondence on generated test worlds + trace monitors",
         design="§5 C04"),
@@ -32,7 +32,7 @@ CHECKS = {
         technique="Lean 4 theorems on the runner-level model (unittest protocol, TestResult, layer loop) + differential correspondence on generated test worlds + trace monitors",
         design="§5 C05"),
     "C12": dict(
-        text="Runner-level Lean model (Model/Proto = unittest 3.12.1 protocol, Model/Result = TestResult, Model/Runner = layer loop, resume, children) tied to the code by running the real runner (CLI, real children) on generated test worlds whose hooks and tests write a pid-tagged trace; every process is compared event by event with the model on this property's projection, and the property's clauses are monitored on the real traces/output. Projection/monitor: 'Ran'/'Total' numbers and the failure/error name lists vs the truth computed from the trace.",
+        text="Runner-level Lean model (Model/Proto = unittest 3.12.1 protocol, Model/Result = TestResult, Model/Runner = layer loop, resume, children) tied to the code by running the real runner (CLI, real children) on generated test worlds whose hooks and tests write a pid-tagged trace; every process is compared event by event with the model on this property's projection, and the property's clauses are monitored on the real traces/output. Theorems: after every callback the counters and lists of the model TestResult agree with the callbacks received (C12_step, C12_counts), testsRun equals the started tests (C12_tests_run), the printed summary of a layer equals the truth of its trace (C12_summary, C12_summary_truth). Monitor: 'Ran'/'Total' numbers and the failure/error name lists vs the truth computed from the trace, incl. names only backslashreplace can write, reported by children.",
         note='KNOWN-FINDINGs D4 (skipped of children) and D5 (--repeat total)',
         technique="Lean 4 theorems on the runner-level model (unittest protocol, TestResult, layer loop) + differential correspondence on generated test worlds + trace monitors",
         design="§5 C12"),
@@ -60,10 +60,13 @@ CHECKS = {
         text="Lean model of find_test_files/find_suites on directory trees with abstract regex predicates. Theorems for "
              "all trees, predicates and path lists: yielded paths = inductive spec (matching files in directories reached "
              "through identifier, non-ignored names), no file twice for overlapping/repeated paths, independence of the "
-             "enumeration order of files and of sub-directories, import only through the --module gate. Tied to the real "
+             "enumeration order of files and of sub-directories, import only through the --module gate and once per module "
+             "name (C14_import_gate, C14_import_once), candidate module names carry the package of their search path "
+             "(longest prefix first). Tied to the real "
              "code on temp trees created in shuffled order; imports observed through module top-level code.",
-        note="--package/-s and symlinks are not modelled; independence of enumeration order is proved per directory "
-             "level (files, sub-directories), not as one statement over a tree-permutation relation",
+        note="--package/-s is not modelled; symlinked directories are materialised and must behave like real ones "
+             "(D30 fixed); independence of enumeration order is proved per directory level (files, sub-directories), "
+             "not as one statement over a tree-permutation relation",
         technique="Lean 4 theorems on hand-written model + differential correspondence on real directory trees",
         design="§5 C14"),
     "C15": dict(
@@ -108,11 +111,12 @@ CHECKS = {
         text="Byte-level Lean model of the child's report writer and the parent's stderr parser (split at \\n, "
              "bytes.split, Python int() grammar, header search, completeness test, UTF-8 validity). Theorems for all "
              "byte strings: round trip through any non-spoofing newline-terminated noise before and any bytes after, "
-             "every strict prefix (every byte offset) of a report yields a communication error, spawn failure yields an "
-             "error, int(str(n)) round trip. Tied to the code by running the real spawn_layer_in_subprocess on the same "
+             "every strict prefix (every byte offset) of a report yields a communication error or - when only the final newline "
+             "of a report without names is missing - the complete report (C07_truncation), no byte string makes the "
+             "parser fail (C07_never_crash), spawn failure yields an error, int(str(n)) round trip. Tied to the code by running the real spawn_layer_in_subprocess on the same "
              "byte strings through a fake Popen and the real SubProcess.report; the property is monitored on the real outcome.",
         note="pipe EOF on child death, reaping and grandchildren holding the pipe are OS behaviour (not modelled); names "
-             "must be valid UTF-8; header-looking or unterminated noise before the report is KNOWN-FINDING D10",
+             "are decoded with errors='replace' (D28); header-looking or unterminated noise before the report is KNOWN-FINDING D10",
         technique="Lean 4 theorems on byte-level model + differential correspondence through a fake Popen",
         design="§5 C07"),
     "C08": dict(
@@ -151,15 +155,18 @@ CHECKS = {
         technique="Lean 4 theorems on hand-written model + generated facts + differential correspondence",
         design="§5 C11"),
     "C20": dict(
-        text="PARTIAL proof. Lean step-machine model of the iterative Tarjan code; proved for all graphs, iteration "
-             "orders and step counts: every node is in exactly one of unvisited/stack/one yielded component (components "
-             "duplicate-free, pairwise disjoint, inside the node set, nothing lost) and a yielded component is the "
-             "stack segment above its root. The full statement (components = mutual reachability classes, default mode "
-             "= non-trivial ones) is kept as an unproved def and checked on every real output by an independent oracle "
-             "(a test). The model is tied to the code by identical emission sequences (exhaustive <= 3/4 nodes + random).",
-        note="mutual-reachability clause and emptiness of the stack at exhaustion are not proved (Tarjan low-link "
-             "invariants); set iteration orders are read from the real objects",
-        technique="Lean 4 invariant proof on step-machine model (partial) + exact differential correspondence + oracle",
+        text="Lean step-machine model of the iterative Tarjan code (one step per loop iteration). Proved for every graph "
+             "(no node listed twice, neighbour lists inside the node set), every iteration order of nodes and neighbours: "
+             "the generator is exhausted within 3|V|+|E|+3 steps (C20_halts, potential function), its components together "
+             "are a permutation of the nodes and two nodes share a component iff each reaches the other (C20_sccs: "
+             "Tarjan's low-link invariants as an 11-clause inductive invariant over the step machine, inv3_step), and the "
+             "default mode yields exactly the non-trivial components of sccs(True) in the same order "
+             "(C20_default_mode); together the full statement C20_full. Tied to the code by identical emission "
+             "sequences (component order and inner order) on all graphs with <= 3/4 nodes and random graphs; the "
+             "theorems' hypotheses are checked on every real graph object; an independent SCC oracle monitors real output.",
+        note="set iteration orders are read from the real objects and handed to the model; node keys are modelled as "
+             "natural numbers (hashable, id()-keyed and unhashable-equal objects are exercised by the correspondence)",
+        technique="Lean 4 invariant proof (Tarjan low-link invariants) on step-machine model + exact differential correspondence + oracle",
         design="§5 C20"),
 }
 
